@@ -1,5 +1,5 @@
 #!/usr/bin/env python3
-"""tools/seed_table.py <final-results.txt> [<round2-first-run.txt>]
+"""tools/seed_table.py <final-results.txt> [<first-run-results.txt> ...]
 Reads the output of tools/run_seeded.sh, stores it as caught_by in every seeded/<id>/meta.json and prints the
 markdown table used in DESIGN.md section 11 (first-run column: meta.caught_by.when_first_run for round 1, the
 round-2 first-run file for round 2)."""
@@ -21,7 +21,9 @@ def parse(path):
         res[sid] = r
     return res
 final = parse(sys.argv[1])
-first2 = parse(sys.argv[2]) if len(sys.argv) > 2 else {}
+first2 = {}
+for fp in sys.argv[2:]:
+    first2.update(parse(fp))
 def first_run_text(sid, meta):
     old = meta.get("caught_by", {}).get("when_first_run")
     if old: return old
